@@ -67,7 +67,12 @@ def generate(seed, tier):
             swing = 10 ** rng.uniform(-3, -2)
             a = rng.choice([0.0, -swing / 2])
             alpha = 10 ** rng.uniform(-3, -2.5)
-        ops.append({"op": "case", "sps": sps, "R": rng.choice([1e9, 10e9, 2.5e9]), "nslots": rng.choice([64, 96, 128]),
+        nsl = rng.choice([64, 96, 128])
+        if rng.random() < 0.05:
+            nsl = rng.choice([256, 512, 1000])
+        if tier == "thorough" and rng.random() < 0.004:
+            nsl = 4300                                    # longer than GET_EYE's default nslots=4096: truncation path
+        ops.append({"op": "case", "sps": sps, "R": rng.choice([1e9, 10e9, 2.5e9]), "nslots": nsl,
                     "pattern": rng.choice(["random", "random", "prbs", "blocks", "sparse", "dense"]),
                     "bseed": rng.getrandbits(31),
                     "a": a, "swing": swing, "bwf": rng.uniform(0.7, 1.0), "sigma": rng.uniform(0.005, 0.05),
@@ -181,7 +186,8 @@ class Bench:
             # from (the estimator's own central-window mask applied to the identically pre-processed noise-only
             # record): with 64 slots only ~15 independent noise samples per level fall into the window, and a
             # realisation whose local spread is below sigma/2 is reported truthfully by the estimator
-            rn = sg.resample(np.roll(noise, (-sps) // 2 + 1), op["nslots"] * 128)
+            ns_eff = min(op["nslots"] - (op["nslots"] % 2), 4096)
+            rn = sg.resample(np.roll(noise[: ns_eff * sps], (-sps) // 2 + 1), ns_eff * 128)
             for f, maskname in (("s0", "y_bot"), ("s1", "y_top")):
                 m = ~np.isnan(np.asarray(getattr(e, maskname)))
                 real = float(np.std(rn[m])) if m.sum() > 1 and m.size == rn.size else sig_abs
